@@ -35,6 +35,18 @@ expressions
                                           3-tuple): `Py6.meshgridT3 a b c` — the rows (x, y, z) in numpy's order: z slowest, then x,
                                           then y (sequences of literal length are expanded by the base class instead)
   `X[np.any(X != 0, axis=1)]`             on an (n, 3) array of naturals: `Py6.rowsAnyNonzero3 X` (the rows with a non-zero entry)
+  `if obj.attr is (not) None:`            on a declared optional attribute of a parameter object: `match obj_attr with | some … | none …`
+  nested accumulation loops               a `for` loop whose body contains another `for` loop, both updating the SAME variable defined
+                                          before the outer loop: nested `Py.forFold` / `Py.forFoldM?`
+  `f(a, …)` (`module_calls`)              a call of the generated definition of a module-level function; the module must bind the name
+                                          (a top-level `def`, or `from <module> import f`)
+  `v + rows`                              a 3-vector plus an (n, 3) array (numpy broadcasting): `Py6.vecAddRows v rows`
+  `xs[e:]` on a list, e a natural         `List.drop e xs`
+  `distance.cdist(rows, [b], "euclidean")`  the column of distances to ONE point, kept SQUARED: `Py6.cdistSqCol rows b` of the opaque
+                                          type `Py6.SqDists`; its only use is
+  `np.any(ss < c)`                        `Py6.anyDistLt ss c` = `0 < c ∧ some squared distance < c²` — exactly `‖·‖ < c` without the
+                                          square root (distances are ≥ 0, so for c ≤ 0 the comparison is false)
+  `np.array(xs)` on a list of rows        the same rows (shape / dtype bookkeeping is not modelled: an empty list stays empty)
   `Atoms(k1=e1, …)` (`ctor`)              the constructor call as DATA: (the sorted list of ALL keyword names passed, then for
                                           every keyword declared in `ctor["kwargs"]` `some value` / `none` = not passed);
                                           positional arguments are Unsupported
@@ -49,7 +61,8 @@ from .gen_code import (Fn, V, Unsupported, STR, NAT, INT, NUM, BOOL, VEC3, MAT3,
                        LIST, SET, OPT, TUP, DICT, FUN, _join, static_param, _lean_str)
 
 UNIT = "unit"
-_EXTRA_TYPES = {UNIT: "Unit"}
+SQDISTS = "sqdists"        # a column of SQUARED euclidean distances (the result of cdist; only `np.any(ss < c)` may read it)
+_EXTRA_TYPES = {UNIT: "Unit", SQDISTS: "Py6.SqDists"}
 
 
 def _patched_lean_ty(orig):
@@ -62,6 +75,11 @@ def _patched_lean_ty(orig):
 
 def all_functions():
     return gen_code.FUNCTIONS + FUNCTIONS6
+
+
+def qualified(cfg):
+    """the Lean name of a generated definition as written inside namespace Mofun.Generated.Code6"""
+    return cfg["lean"] if cfg in FUNCTIONS6 else "Code." + cfg["lean"]
 
 
 class Fn6(Fn):
@@ -114,6 +132,8 @@ class Fn6(Fn):
             outs = [env["self." + a] for a in self.mutated_attrs()]
             binds, refs = _join(*outs)
             return ("ret", V("(%s)" % ", ".join(["()"] + [o.term for o in outs]), None, (), refs))
+        if not stmts and not conts and mode == "fold6":
+            return ("ret", env[self.fold_state[-1]])          # the end of the code after an inner loop: the accumulated value
         return super().block(stmts, env, conts, mode)
 
     def stmt(self, s, rest, env, conts, mode):
@@ -150,6 +170,62 @@ class Fn6(Fn):
             return self.block(new + list(rest), env, conts, mode)
         return super().stmt(s, rest, env, conts, mode)
 
+    def if_ir(self, s, rest, env, conts, mode):
+        t = s.test
+        if isinstance(t, ast.Compare) and len(t.ops) == 1 and isinstance(t.ops[0], (ast.Is, ast.IsNot)) and \
+                isinstance(t.comparators[0], ast.Constant) and t.comparators[0].value is None and isinstance(t.left, ast.Attribute) and \
+                isinstance(t.left.value, ast.Name) and (t.left.value.id + "." + t.left.attr) in env and \
+                t.left.value.id in self.cfg.get("objattrs", {}):
+            key = t.left.value.id + "." + t.left.attr
+            v = env[key]
+            if isinstance(v.ty, tuple) and v.ty[0] == "opt":
+                nm = v.term
+                e_some = dict(env)
+                e_some[key] = static_param(nm, v.ty[1])
+                some_body, none_body = (s.orelse, s.body) if isinstance(t.ops[0], ast.Is) else (s.body, s.orelse)
+                k = [rest] + list(conts)
+                return ("matchopt", v, nm, self.block(some_body, e_some, k, mode), self.block(none_body, env, k, mode))
+        return super().if_ir(s, rest, env, conts, mode)
+
+    def for_ir(self, s, rest, env, conts, mode):
+        if mode == "fold" and self.cfg.get("nested_loops"):
+            mode = "fold6"                   # a loop inside the body of an accumulation loop
+        return super().for_ir(s, rest, env, conts, mode)
+
+    def fold_ir(self, s, rest, env, conts, mode, it, e2, pat, patnames):
+        if not self.cfg.get("nested_loops"):
+            return super().fold_ir(s, rest, env, conts, mode, it, e2, pat, patnames)
+        # as the base class, but the body may contain further loops; all of them must update the same ONE variable
+        changed = []
+        for n in ast.walk(ast.Module(body=s.body, type_ignores=[])):
+            if isinstance(n, (ast.AugAssign, ast.Break, ast.Continue, ast.While, ast.Raise, ast.Return)):
+                self.fail(n, "statement %s in a loop body" % type(n).__name__)
+            tgt = None
+            if isinstance(n, ast.Assign) and len(n.targets) == 1:
+                t = n.targets[0]
+                tgt = t.id if isinstance(t, ast.Name) else (t.value.id if isinstance(t, ast.Subscript) and isinstance(t.value, ast.Name) else None)
+            if isinstance(n, ast.Expr) and isinstance(n.value, ast.Call) and isinstance(n.value.func, ast.Attribute) and n.value.func.attr == "append":
+                t = n.value.func.value
+                tgt = t.id if isinstance(t, ast.Name) else None
+            if isinstance(n, ast.For):
+                for t in ast.walk(n.target):
+                    if isinstance(t, ast.Name) and t.id in env:
+                        self.fail(n, "loop variable %s shadows a variable defined before the loop" % t.id)
+            if tgt is not None and tgt in env and tgt not in changed:
+                changed.append(tgt)
+        if len(changed) != 1:
+            self.fail(s, "a loop must update exactly one variable defined before it (updates: %r)" % changed)
+        x = changed[0]
+        init = env[x]
+        nm = self.lname(x)
+        e2[x] = V(nm, init.ty, (), {nm})
+        self.fold_state.append(x)
+        body = self.block(s.body, e2, [], "fold")
+        self.fold_state.pop()
+        e3 = dict(env)
+        e3[x] = V(nm, init.ty, (), {nm})
+        return ("fold", nm, it, pat, patnames, init, body, self.block(rest, e3, conts, mode))
+
     def fragment_body(self, stmts, steps, env):
         if list(steps) == [("return", None)]:
             if not stmts or not isinstance(stmts[-1], ast.Return):
@@ -164,9 +240,34 @@ class Fn6(Fn):
             return env[node.value.id + "." + node.attr]         # an attribute of a copy of self
         return super().ex_Attribute(node, env, want)
 
+    def ex_BinOp(self, node, env, want):
+        if isinstance(node.op, ast.Add):
+            a, b = self.ex(node.left, env), self.ex(node.right, env)
+            if OPAQUE in (a.ty, b.ty):
+                return V.opaque()
+            def rows(v):
+                return v.ty == LIST(VEC3) or (v.items is not None and len(gen_code.shape_of(v)) == 2 and gen_code.shape_of(v)[1] == 3)
+            if a.ty == VEC3 and a.items is None and rows(b):
+                b = self.coerce(node, b, LIST(VEC3))
+                binds, refs = _join(a, b)
+                return V("(Py6.vecAddRows %s %s)" % (a.term, b.term), LIST(VEC3), binds, refs)
+        return super().ex_BinOp(node, env, want)
+
     def ex_Subscript(self, node, env, want):
-        # X[np.any(X != 0, axis=1)]: the rows of an (n, 3) array with a non-zero entry
         sl = node.slice
+        # xs[e:] on a list
+        if isinstance(sl, ast.Slice) and sl.upper is None and sl.step is None and sl.lower is not None:
+            base = self.ex(node.value, env)
+            if base.ty == OPAQUE:
+                return base
+            if isinstance(base.ty, tuple) and base.ty[0] == "list" and base.items is None:
+                lo = self.ex(sl.lower, env)
+                if lo.ty == OPAQUE:
+                    return lo
+                lo = self.coerce(node, lo, NAT)
+                binds, refs = _join(base, lo)
+                return V("(List.drop %s %s)" % (lo.term, base.term), base.ty, binds, refs)
+        # X[np.any(X != 0, axis=1)]: the rows of an (n, 3) array with a non-zero entry
         if isinstance(node.value, ast.Name) and isinstance(sl, ast.Call) and ast.unparse(sl.func) == "np.any" and "np" not in env and \
                 len(sl.args) == 1 and [k.arg for k in sl.keywords] == ["axis"] and isinstance(sl.keywords[0].value, ast.Constant) and \
                 sl.keywords[0].value.value == 1 and ast.unparse(sl.args[0]) == "%s != 0" % node.value.id:
@@ -207,6 +308,69 @@ class Fn6(Fn):
                 return n
             n = self.coerce(node, n, NAT)
             return V("(List.range %s)" % n.term, LIST(NAT), n.binds, n.refs)
+        # a module-level function translated separately
+        mcalls = self.cfg.get("module_calls", {})
+        if isinstance(f, ast.Name) and f.id in mcalls and f.id not in env and not kw:
+            lean, module = mcalls[f.id]
+            bound = False
+            for n in self.tree.body:
+                if module is None and isinstance(n, ast.FunctionDef) and n.name == f.id:
+                    bound = True
+                if module is not None and isinstance(n, ast.ImportFrom) and n.module == module and n.level == 0 and \
+                        any(al.name == f.id and al.asname in (None, f.id) for al in n.names):
+                    bound = True
+                if isinstance(n, ast.Assign) and any(isinstance(t, ast.Name) and t.id == f.id for t in n.targets):
+                    self.fail(node, "%s is re-bound at module level" % f.id)
+            if not bound or f.id in self.locals_assigned:
+                self.fail(node, "%s is not bound at module level to the translated function" % f.id)
+            other = [c for c in all_functions() if c["lean"] == lean][0]
+            if other["py"] != f.id or other.get("cls") or other.get("fragment") or other.get("slice"):
+                self.fail(node, "%s is not a translated module-level function" % f.id)
+            args = [self.ex(a_, env) for a_ in node.args]
+            if any(a_.ty == OPAQUE for a_ in args):
+                return V.opaque()
+            if len(args) != len(other["params"]):
+                self.fail(node, "call of %s with %d arguments" % (f.id, len(args)))
+            args = [self.coerce(node, a_, t) for a_, (_, t) in zip(args, other["params"])]
+            binds, refs = _join(*args)
+            term = "(%s %s)" % (qualified(other), " ".join(a_.term for a_ in args))
+            if other.get("partial"):
+                r = self.rebind(term, other["ret"], refs)
+                return V(r.term, other["ret"], binds + r.binds, r.refs)
+            return V(term, other["ret"], binds, refs)
+        # distance.cdist(rows, [b], "euclidean"): the column of SQUARED distances to one point
+        if fname == "distance.cdist" and "distance" not in env and not kw and len(node.args) == 3 and \
+                isinstance(node.args[2], ast.Constant) and node.args[2].value == "euclidean" and \
+                isinstance(node.args[1], ast.List) and len(node.args[1].elts) == 1:
+            if not any(isinstance(n, ast.ImportFrom) and n.module == "scipy.spatial" and any(al.name == "distance" and al.asname is None for al in n.names)
+                       for n in self.tree.body):
+                self.fail(node, "distance is not scipy.spatial.distance")
+            rows_, b = self.ex(node.args[0], env), self.ex(node.args[1].elts[0], env)
+            if OPAQUE in (rows_.ty, b.ty):
+                return V.opaque()
+            if rows_.ty != LIST(VEC3) or b.ty != VEC3:
+                self.fail(node, "cdist(%s, [%s])" % (rows_.ty, b.ty))
+            b = self.coerce(node, b, VEC3)
+            binds, refs = _join(rows_, b)
+            return V("(Py6.cdistSqCol %s %s)" % (rows_.term, b.term), SQDISTS, binds, refs)
+        # np.any(ss < c) on such a column
+        if fname == "np.any" and "np" not in env and not kw and len(node.args) == 1 and isinstance(node.args[0], ast.Compare) and \
+                len(node.args[0].ops) == 1 and isinstance(node.args[0].ops[0], ast.Lt):
+            left = self.ex(node.args[0].left, env)
+            if left.ty == SQDISTS:
+                c = self.ex(node.args[0].comparators[0], env)
+                if c.ty == OPAQUE:
+                    return c
+                c = self.coerce(node, c, NUM)
+                binds, refs = _join(left, c)
+                return V("(Py6.anyDistLt %s %s)" % (left.term, c.term), BOOL, binds, refs)
+        # np.array(xs) on a list of rows of parametric length: the same rows
+        if fname == "np.array" and "np" not in env and not kw and len(node.args) == 1 and self.cfg.get("np_array_rows"):
+            a = self.ex(node.args[0], env)
+            if a.ty == OPAQUE:
+                return a
+            if a.items is None and isinstance(a.ty, tuple) and a.ty[0] == "list" and isinstance(a.ty[1], tuple) and a.ty[1][0] == "list":
+                return a
         # np.array(np.meshgrid(a, b, c)).T.reshape(-1, 3) for sequences of parametric length
         if isinstance(f, ast.Attribute) and f.attr == "reshape" and not kw and [ast.unparse(a_) for a_ in node.args] == ["-1", "3"] and \
                 isinstance(f.value, ast.Attribute) and f.value.attr == "T" and isinstance(f.value.value, ast.Call) and \
@@ -260,7 +424,7 @@ class Fn6(Fn):
                 self.fail(node, "call of %s with %d arguments" % (f.attr, len(args)))
             args = [self.coerce_arg(node, a_, t) for a_, (_, t) in zip(args, other["params"])]
             binds, refs = _join(*args)
-            term = "(%s %s)" % (other["lean"], " ".join(a_.term for a_ in args))
+            term = "(%s %s)" % (qualified(other), " ".join(a_.term for a_ in args))
             if other.get("partial"):
                 r = self.rebind(term, other["ret"], refs)
                 return V(r.term, other["ret"], binds + r.binds, r.refs)
@@ -346,6 +510,16 @@ FUNCTIONS6 += [
          doc=" (FRAGMENT: the `offsets=` keyword of the `repl_atoms.extend` call of every image)"),
 ]
 
+FUNCTIONS6 += [
+    # ---- item 4: detect_bonds (max_bond_length and uc_neighbor_offsets are in Generated/Code.lean)
+    dict(file="mofun/detect_bonds.py", py="detect_bonds", lean="detectBonds", params=[], partial=True, nested_loops=True, np_array_rows=True,
+         objattrs={"structure": {"elements": LIST(STR), "positions": LIST(VEC3), "cell": OPT(MAT3)}},
+         module_calls={"uc_neighbor_offsets": ("ucNeighborOffsets", "mofun"), "max_bond_length": ("maxBondLength", None)},
+         locals={"bonds": LIST(LIST(NAT))}, ret=LIST(LIST(NAT)),
+         doc=": the rows `[idx1, idx2]` in the order they are appended; `cdist` + `np.any(ss < cutoff)` is the sqrt-free comparison "
+             "`0 < cutoff ∧ ‖image − atom2‖² < cutoff²` (Py6.cdistSqCol / Py6.anyDistLt); `none` = KeyError of max_bond_length / IndexError"),
+]
+
 PRELUDE6 = r'''/- GENERATED on every run by harness/gen_code6.py from the sources of /repo — do not edit.
    Python → Lean translation, batch 6 (container operations, bond detection, term enumeration); the supported subset is
    documented in gen_code.py and gen_code6.py.  `Mofun.Generated.Py6` is the fixed prelude of the primitives this batch adds;
@@ -390,6 +564,21 @@ def meshgridT3 {α} (xs ys zs : List α) : List (α × α × α) :=
 /-- `rows[np.any(rows != 0, axis=1)]` on an (n, 3) array of naturals: the rows with a non-zero entry, in order -/
 def rowsAnyNonzero3 (rows : List (Nat × Nat × Nat)) : List (Nat × Nat × Nat) :=
   rows.filter (fun m => m.1 != 0 || m.2.1 != 0 || m.2.2 != 0)
+
+/-- `v + rows` for a 3-vector and an (n, 3) array (numpy broadcasting): `v` added to every row -/
+def vecAddRows (v : Vec3) (rows : List Vec3) : List Vec3 := rows.map (fun o => Vec3.add v o)
+
+/-- the result of `distance.cdist(rows, [b], "euclidean")`, an (n, 1) array of distances, kept as the SQUARED distances
+    (no square root in the rational model); the translator gives it a type of its own so that nothing but `anyDistLt` reads it -/
+structure SqDists where
+  sq : List Rat
+
+/-- `distance.cdist(rows, [b], "euclidean")`: entry k is `‖rows[k] − b‖`, stored as `‖rows[k] − b‖²` -/
+def cdistSqCol (rows : List Vec3) (b : Vec3) : SqDists := ⟨rows.map (fun r => Vec3.normSq (Vec3.sub r b))⟩
+
+/-- `np.any(ss < c)` for such a column: some distance is STRICTLY below `c`.  For reals `d ≥ 0`: `d < c ⟺ 0 < c ∧ d² < c²`;
+    this is exactly that statement on the squares (no distance is below a cutoff `c ≤ 0`) -/
+def anyDistLt (ss : SqDists) (c : Rat) : Bool := decide (0 < c) && ss.sq.any (fun d => decide (d < c * c))
 
 end Mofun.Generated.Py6
 
